@@ -228,6 +228,88 @@ pub fn run(rep: &mut Rep) {
             }
         }
     }
+    // cancelled exchanges and the next connection: what a cancelled publish leaves behind must be exactly its unfinished
+    // handshake - nothing once the broker has completed it - also when the session is resumed afterwards
+    rep.note("cancellation, then resumption: QoS 1 / QoS 2 publishes cancelled before PUBREC, between the phases, or not at all; the broker completes all / some / none of the exchanges; connection lost, session resumed under Receive Maximum 2 or 3: exactly the unfinished handshakes are re-sent, the others' slots are free (probe), new publishes complete");
+    let mut cidx = 72_000_000u64;
+    for pattern in 0..27u32 {
+        for completes in 0..3u8 {
+            for rmax in [2u16, 3] {
+                let id = format!("cancel-resume:{pattern}:{completes}:{rmax}");
+                cidx += 1;
+                if !rep.take(cidx, &id) {
+                    continue;
+                }
+                let mut w = World::boot(WorldCfg { seed: rep.seed, sei: Some(3600), ..Default::default() });
+                // three publishes: QoS by position, cancellation phase from the pattern digit (0 none, 1 at once, 2 between the phases / after the ack went out)
+                let mut ops = Vec::new();
+                for j in 0..3u32 {
+                    let phase = (pattern / 3u32.pow(j)) % 3;
+                    let kind = if j == 1 { Kind::Pub1 } else { Kind::Pub2 };
+                    let i = w.start((j % 2) as usize, kind);
+                    w.settle_check();
+                    if phase == 1 {
+                        w.drop_op(i);
+                        w.settle_check();
+                    } else if phase == 2 {
+                        if kind == Kind::Pub2 && w.ackable().contains(&(i, 1)) {
+                            w.deliver_ack(i, 1, 0, 0);
+                            w.settle_check();
+                        }
+                        w.drop_op(i);
+                        w.settle_check();
+                    }
+                    ops.push(i);
+                }
+                // the broker goes on with the exchanges: all the way, one step, or not at all
+                let rounds = match completes {
+                    0 => 4,
+                    1 => 1,
+                    _ => 0,
+                };
+                for _ in 0..rounds {
+                    for (i, st) in w.ackable() {
+                        w.deliver_ack(i, st, 0, 0);
+                        w.settle_check();
+                    }
+                }
+                w.eof();
+                w.settle_check();
+                let resumed = w.resume_full(ResumeOpts { secs_ago: 1, sei: Some(3600), receive_max: Some(rmax), ..Default::default() });
+                w.settle_check();
+                if resumed && !w.blind {
+                    for _ in 0..4 {
+                        for (i, st) in w.ackable() {
+                            w.deliver_ack(i, st, 0, 0);
+                            w.settle_check();
+                        }
+                    }
+                    let n = w.start(0, Kind::Pub1);
+                    w.settle_check();
+                    if w.ackable().contains(&(n, 1)) {
+                        w.deliver_ack(n, 1, 0, 0);
+                        w.settle_check();
+                    }
+                    end_probe(rep, &mut w);
+                }
+                finish(&mut w);
+                for v in w.viols.iter_mut() {
+                    if !v.props.contains(&"C15") && !v.props.contains(&"*") {
+                        v.sig = format!("C15/after-cancel/{}", v.sig);
+                        v.props = &["C15"];
+                    }
+                }
+                rep.add("evaluations", 1);
+                rep.add("cancel_then_resume_cases", 1);
+                rep.add("cancellations", w.m.iter().filter(|m| m.dropped).count() as i64);
+                rep.distinct(&("cancel-resume", pattern, completes, rmax));
+                if harvest(rep, &mut w, &id) == 0 {
+                    rep.sample(|| format!("{id}: only unfinished handshakes re-sent, all slots accounted for"));
+                }
+                add_counters(rep, &w);
+            }
+        }
+    }
     // many cancellations at once
     let ns: Vec<usize> = if rep.quick() { vec![9, 17, 33, 65, 129, 300] } else { vec![7, 8, 9, 15, 16, 17, 31, 32, 33, 63, 64, 65, 127, 128, 129, 255, 256, 257, 1000] };
     rep.note(&format!("wide: {:?} operations of every kind outstanding, two thirds of them cancelled in PRNG order in every phase (before the context sees them, awaiting the acknowledgement, between the QoS 2 phases), all acknowledgements then delivered in PRNG order: run() keeps serving, every surviving operation completes with its own acknowledgement, all slots are free at the end", ns));
@@ -251,7 +333,8 @@ pub fn run(rep: &mut Rep) {
                 let i = w.start(j % 2, kinds[j % kinds.len()]);
                 ops.push(i);
                 if variant == 0 {
-                    w.settle();
+                    // (the model learns what is on the wire when it checks)
+                    w.settle_check();
                     if kinds[j % kinds.len()] == Kind::Pub2 && j % 2 == 1 && w.m[i].req_wire.is_some() {
                         w.deliver_ack(i, 1, 0, 0);
                         w.settle();
